@@ -87,8 +87,8 @@ Definition sp_decode (ethertype : N) (b : bytes) : option arp_pkt :=
 
 Inductive sphase :=
 | SIdle                 (* between iterations *)
-| SLooked (h : bool)    (* this iteration's lookup happened; h: the MAC was hunted then *)
-| SChecked (h : bool)   (* ... and the loop went on to send (the handler was open at its check) *)
+| SLooked (h : bool)    (* this iteration's lookup happened on an open handler; h: the MAC was hunted then *)
+| SChecked (h : bool)   (* ... and the loop goes on to send *)
 | SDone.                (* the loop has terminated *)
 
 Record sp_state := mkSp {
@@ -155,13 +155,15 @@ Definition sp_step (c : cfg) (s : sp_state) (e : event) (out : list frame) : sp_
       (* the loop looks its MAC up (under the lock): this is where the iteration's frame is decided *)
       let v := silent out VOther in
       match nth_error (sp_loops s) i with
-      | Some (m, SIdle) => (sp_set_phase i m (SLooked (mem m (sp_hunted s))) s, v)
+      | Some (m, SIdle) =>
+          (* Close stops all loops: a loop that passes its lock section on a closed handler ends there *)
+          (sp_set_phase i m (if sp_closed s then SDone else SLooked (mem m (sp_hunted s))) s, v)
       | _ => (s, v)
       end
   | Check i =>
       let v := silent out VOther in
       match nth_error (sp_loops s) i with
-      | Some (m, SLooked h) => (sp_set_phase i m (if sp_closed s then SDone else SChecked h) s, v)
+      | Some (m, SLooked h) => (sp_set_phase i m (SChecked h) s, v)
       | _ => (s, v)
       end
   | Send i =>
